@@ -66,6 +66,14 @@ def gen_case(rng, thorough, expiry=False):
             ops.append({"op": "enableRule", "id": n, "enable": False})      # a property fact attached to n (deleteWith:[n])
         if rng.random() < 0.2:
             ops.append({"op": "addFact", "id": "", "fact": {"id": n, "!note": "p"}})   # another property fact; no deleteWith of its own
+    if rng.random() < 0.35:
+        # a dependent is written again with another deleteWith (re-pointed, or none): it dies with what it names NOW, and mentions of
+        # other ids elsewhere in the fact are no dependencies
+        for n in rng.sample(nodes, rng.randint(1, min(2, len(nodes)))):
+            f = {"v": rng.choice([1, "x"]), "k": n, "ref": rng.choice(nodes)}
+            nd = rng.choice([[], [rng.choice(nodes)], [rng.choice(nodes + ["ghost"])]])
+            if nd: f["deleteWith"] = nd
+            ops.append({"op": "addFact", "id": n, "fact": f})
     rng.shuffle(nodes)
     if expiry:
         # deletion by expiry: one node expires in 2 s, then observations after the instant trigger the purge
